@@ -21,6 +21,7 @@ type c15Mod struct {
 	Imports []c15Imp `json:"imports"` // textual order
 	Funcs   []c15Fn  `json:"funcs"`
 	HasType bool     `json:"has_type"`
+	Bare    bool     `json:"bare,omitempty"` // nothing but its 导入 lines: no statement, no export
 	Source  string   `json:"source"`
 	Missing bool     `json:"missing,omitempty"`
 	Damage  string   `json:"damage,omitempty"`
@@ -109,7 +110,9 @@ func (md *c15Model) load(m *c15Mod) (map[string]string, bool) {
 			if _, ok := md.load(dep); !ok {
 				return nil, false
 			}
-			md.display = append(md.display, "body "+dep.Name)
+			if !dep.Bare {
+				md.display = append(md.display, "body "+dep.Name)
+			}
 			md.loading[dep.Name] = false
 			md.loaded[dep.Name] = true
 		}
@@ -173,6 +176,13 @@ func c15Source(m *c15Mod, isMain bool, mainStmts []string) string {
 	if isMain {
 		for _, s := range mainStmts {
 			sb.WriteString(s + "\n")
+		}
+		return sb.String()
+	}
+	if m.Bare {
+		// an aggregator: its file consists of 导入 lines (and perhaps a comment) only
+		if len(m.Imports)%2 == 1 {
+			sb.WriteString("注：本模块只汇总其他模块\n")
 		}
 		return sb.String()
 	}
@@ -241,6 +251,11 @@ func runC15(t *zsim.Tape, cfg *hlib.Config) *hlib.Outcome {
 			m.Funcs = append(m.Funcs, c15Fn{Name: fmt.Sprintf("%s法%d", tag, j+1)})
 		}
 		m.HasType = t.Draw(3) == 0
+		if t.Draw(7) == 6 {
+			// a module without a body: only its imports (if it gets any) — still loaded once,
+			// still part of cycles, still loading what it imports
+			m.Bare, m.Funcs, m.HasType = true, nil, false
+		}
 	}
 	// edges: mostly acyclic (importing only later modules), sometimes anything goes
 	cyclic := t.Draw(4) == 0
@@ -255,7 +270,7 @@ func runC15(t *zsim.Tape, cfg *hlib.Config) *hlib.Outcome {
 			}
 			if edge {
 				imp := c15Imp{Target: dep.Name}
-				if t.Draw(4) == 0 { // selective import: a drawn non-empty subset of the exports, in drawn order
+				if t.Draw(4) == 0 && !dep.Bare { // selective import: a drawn non-empty subset of the exports, in drawn order
 					imp.Items = c15Subset(t, exportsOf(dep))
 				}
 				m.Imports = append(m.Imports, imp)
@@ -338,7 +353,7 @@ func runC15(t *zsim.Tape, cfg *hlib.Config) *hlib.Outcome {
 	for _, m := range sc.Mods {
 		if t.Draw(2) == 1 || len(main.Imports) == 0 && m == sc.Mods[len(sc.Mods)-1] {
 			imp := c15Imp{Target: m.Name}
-			if t.Draw(4) == 0 {
+			if t.Draw(4) == 0 && !m.Bare {
 				imp.Items = c15Subset(t, exportsOf(m))
 			}
 			main.Imports = append(main.Imports, imp)
@@ -644,6 +659,9 @@ func c15Shape(sc *c15Scenario) string {
 		x := m.Name + "→" + strings.Join(is, ",")
 		if m.Missing {
 			x += "(missing)"
+		}
+		if m.Bare {
+			x += "(bare)"
 		}
 		if m.Damage != "" {
 			x += "(" + m.Damage + ")"
